@@ -209,6 +209,9 @@ pub struct ScenCfg {
     /// Percentage of responses that come back longer than the request (trailing bytes after the
     /// last datagram, announced by the EtherCAT length field), as far as the slot has room.
     pub long_resp: u32,
+    /// Percentage of responses preceded or followed by a forged copy whose EtherCAT length exceeds
+    /// the slot's datagram area by 1..16 bytes (it must be refused and leave the slot usable).
+    pub oversize: u32,
     pub garbage: u32,
     /// Which task is "under observation" for C06 (losses apply only to it); None = all.
     pub observed: Option<usize>,
@@ -1143,6 +1146,21 @@ fn wire_send(sh: &Sh, bytes: &[u8]) -> Result<usize, Error> {
             }
         }
     }
+    let oversize_copy: Option<Vec<u8>> = if s.cfg.oversize > 0 && with(|c| c.tape.flag(s.cfg.oversize, 100, "oversize_copy")) {
+        let k = 1 + with(|c| c.tape.choose(16, "oversize_by"));
+        let mut b = wire::encode_response(&resp);
+        let len = s.cfg.frame_len - 16 + k;
+        if len <= 0x07ff && 16 + len >= b.len() {
+            let hdr = u16::from_le_bytes([b[14], b[15]]);
+            b[14..16].copy_from_slice(&((hdr & !0x07ff) | len as u16).to_le_bytes());
+            b.resize(16 + len, 0xEE);
+            Some(b)
+        } else {
+            None
+        }
+    } else {
+        None
+    };
     let observed = s.cfg.observed.map_or(true, |t| t == s.reqs[req].task);
     let lose_all = s.reqs[req].all_lost;
     let (loss, dup, early) = (s.cfg.loss, s.cfg.dup, s.cfg.early);
@@ -1182,6 +1200,12 @@ fn wire_send(sh: &Sh, bytes: &[u8]) -> Result<usize, Error> {
         early: is_early && crate::tape::gen() < 2,
         genuine: true,
     });
+    if oversize_copy.is_some() {
+        s.fault("oversize");
+    }
+    if let Some(b) = oversize_copy {
+        s.wire.push(InFlight { bytes: b, req: Some(req), slot, sent_mark, early: false, genuine: false });
+    }
     if is_dup {
         s.fault("dup");
         s.wire.push(InFlight {
@@ -1478,6 +1502,7 @@ pub fn draw_cfg(prop: Prop, t: &mut Tape, thorough: bool) -> ScenCfg {
         dup: 0,
         early: 0,
         long_resp: 0,
+        oversize: 0,
         garbage: 0,
         observed: None,
         lose_all_observed: false,
@@ -1539,6 +1564,9 @@ pub fn draw_cfg(prop: Prop, t: &mut Tape, thorough: bool) -> ScenCfg {
             cfg.dup = t.pick(&[0u32, 25], "dup");
             cfg.realloc_probe = true;
             cfg.trans = TransMode::WithDeadlines;
+            if crate::tape::gen() >= 2 {
+                cfg.oversize = t.pick(&[0u32, 25], "oversize_copy");
+            }
         }
         Prop::C20 => {
             cfg.waker_driven = true;
@@ -1570,6 +1598,7 @@ pub fn draw_cfg(prop: Prop, t: &mut Tape, thorough: bool) -> ScenCfg {
             cfg.dup = t.pick(&[0u32, 20], "dup");
             cfg.early = t.pick(&[0u32, 0, 25], "early_copy");
             cfg.long_resp = t.pick(&[30u32, 0, 60], "long_response");
+            cfg.oversize = t.pick(&[0u32, 20], "oversize_copy");
             cfg.trans = TransMode::Off;
             cfg.tx_multi_read = true;
         }
@@ -1598,6 +1627,7 @@ pub fn draw_cfg(prop: Prop, t: &mut Tape, thorough: bool) -> ScenCfg {
             cfg.tx_multi_read = true;
             if crate::tape::gen() >= 2 {
                 cfg.early = t.pick(&[0u32, 0, 25], "early_copy");
+                cfg.oversize = t.pick(&[0u32, 0, 20], "oversize_copy");
             }
         }
     }
